@@ -4,12 +4,16 @@ pub mod c01;
 pub mod c04;
 pub mod c17;
 pub mod c35;
+pub mod perp;
 pub mod smoke;
 
 pub const REGISTRY: &[(&str, fn(&mut Ctx))] = &[
     ("C01", c01::run),
     ("C04", c04::run_c04),
     ("C05", c04::run_c05),
+    ("C07", perp::run_c07),
+    ("C09", perp::run_c09),
+    ("C13", perp::run_c13),
     ("C17", c17::run),
     ("C35", c35::run),
     ("SMOKE", smoke::run),
